@@ -5,7 +5,13 @@ derivation / record-protection functions with the independent Gallina implementa
 Every harness observation is a generic case {fn, h, in[], n[], out[]}; Crypto/C10Run.v
 `case_ok` recomputes `out` from (fn, h, in, n) and compares. The property's own predicate IS this
 equality, so a mismatching case is a failing input of the property (replay = the case plus the
-model's value)."""
+model's value).
+
+Leg `handshake12` is the passive-decoder view of live DTLS 1.2 handshakes: the handshake messages are
+reassembled from the captured datagrams in wire order (never from pion's handshake cache / pull rules),
+both Finished records are opened with keys derived from the key-log master secret, and function codes
+13/14 (Finished verify_data), 15 (CertificateVerify input, signature checked with the client's public key
+by Go's stdlib), 17 / 2 (extended / plain master secret) are recomputed by Crypto/C10Transcript.v."""
 import re
 
 import vlib
@@ -14,6 +20,7 @@ from vlib import cN, cNlist, clist, chex
 IMPORTS = "From DtlsV Require Import Lib.Bytes Crypto.C10Run."
 
 SITE_RX = "pkg/crypto/ciphersuite (receive direction)"
+SITE_HS = "internal/flight/flight12 handshake_messages (Finished verify_data, CertificateVerify, session hash)"
 
 # (leg, package, test regexp, site reported for mismatches)
 HARNESSES = [
@@ -29,6 +36,11 @@ HARNESSES = [
     ("schedule13", "./internal/handshake", "^TestVerifC10Schedule13$", "internal/handshake/traffic_secrets.go"),
     ("keymessage", "./internal/handshakecrypto", "^TestVerifC10KeyMessage$", "internal/handshakecrypto/crypto.go ValueKeyMessage"),
     ("live", ".", "^TestVerifC10Live$", "conn.go record protection (live traffic, key-log keyed decoder)"),
+    # live DTLS 1.2 handshakes seen by a passive decoder holding the key log: every handshake message
+    # reassembled from the captured datagrams in WIRE order, both Finished records opened with keys derived
+    # from the logged master secret; verify_data / CertificateVerify input / extended master secret are
+    # recomputed by the model (Crypto/C10Transcript.v) over that wire-order transcript
+    ("handshake12", ".", "^TestVerifC10Handshake12$", SITE_HS),
     ("record13", "./internal/ciphersuite", "^TestVerifC10Record13$", "internal/ciphersuite/tls_13_record_protection.go"),
     # receive direction: records a conforming peer may send (explicit nonce != epoch||seq, extra padding, ...)
     ("receive12", "./internal/ciphersuite", "^TestVerifC10Receive12$", SITE_RX),
@@ -94,6 +106,8 @@ def nontrivial(c):
 
 
 def key_of(c):
+    if c.get("hs"):
+        return (c["fn"], c["hs"]["variant"], c["hs"].get("side", ""), c["hs"]["check"])
     if c.get("rx"):
         return (c["fn"], c["rx"]["suite"], c["rx"]["record"])
     return (c["fn"], c["h"], tuple(c["in"]), tuple(c["n"]))
@@ -114,6 +128,29 @@ def monitor_rx(c):
         return ({"monitor": "forged record accepted", "suite": rx["family"], "control": rx.get("control", "")},
                 "%s: a record with one bit of `%s` changed is accepted" % (rx["suite"], rx.get("control", "")))
     return None
+
+
+HS_MONITORS = {
+    13: "finished verify_data differs from PRF over the wire-order transcript",
+    14: "finished verify_data differs from PRF over the wire-order transcript",
+    17: "extended master secret differs from PRF over the wire-order session hash",
+    2: "master secret differs from PRF(pre_master_secret, \"master secret\", randoms)",
+}
+HS_FORMULA = {
+    13: "PRF(master_secret, \"client finished\", Hash(handshake_messages))[0..11]  (RFC 5246 7.4.9)",
+    14: "PRF(master_secret, \"server finished\", Hash(handshake_messages))[0..11]  (RFC 5246 7.4.9)",
+    17: "PRF(pre_master_secret, \"extended master secret\", Hash(handshake_messages through ClientKeyExchange))[0..47]"
+        "  (RFC 7627 4)",
+    2: "PRF(pre_master_secret, \"master secret\", client_random + server_random)[0..47]  (RFC 5246 8.1)",
+}
+CV_MONITOR = "CertificateVerify signature does not verify over the wire-order transcript"
+HS_HOW = ("run a DTLS 1.2 handshake of the named variant (harness/overlay/root/zz_verif_c10_hs_test.go "
+          "c10HSVariants) with a KeyLogWriter on the client, capture every datagram, reassemble the epoch-0 "
+          "handshake messages in the order they appear on the wire (`message_order`; in = secret followed by "
+          "the message bodies, n = msg_type,message_seq per body), open both epoch-1 Finished records with "
+          "keys derived from the CLIENT_RANDOM key-log line, and compare with the RFC formula over "
+          "handshake_messages = the wire-order messages after the HelloVerifyRequest, each with a 12-byte "
+          "single-fragment header (RFC 6347 4.2.1 / 4.2.6)")
 
 
 def signature_of(c):
@@ -182,6 +219,24 @@ def run(chk):
                                         "NewRecordProtection(in[0]) (DTLS 1.3) and call Decrypt / Open on rx.record",
                                  "rx": c["rx"], "case": c,
                                  "rerun": "VERIF_SEED=%d bin/check C10 --tier %s" % (chk.seed, chk.tier)})
+            hs = c.get("hs")
+            if hs and hs.get("cv_ok") is False and CV_MONITOR not in mon_reported:
+                mon_reported.add(CV_MONITOR)
+                found_input = True
+                same = [x for _, _, x in allc if x.get("hs") and x["hs"].get("cv_ok") is not None]
+                chk.finding(SITE_HS, {"monitor": CV_MONITOR, "side": "client"},
+                            "%s: handshake %s (%s); the client's signature (algorithm %s) does not verify with the "
+                            "public key of its Certificate message over the handshake messages that preceded "
+                            "CertificateVerify on the wire [%s]%s" % (
+                                CV_MONITOR, hs["variant"], hs["suite"], hs.get("cv_alg", "?"), hs["order"],
+                                (" (" + hs["cv_err"] + ")") if hs.get("cv_err") else ""),
+                            {"how": HS_HOW + "; the signed input is out[0]", "variant": hs["variant"],
+                             "suite": hs["suite"], "message_order": hs["order"],
+                             "formula": "signature over handshake_messages up to, not including, CertificateVerify "
+                                        "(RFC 5246 7.4.8)",
+                             "failing_variants": sorted(x["hs"]["variant"] for x in same if x["hs"]["cv_ok"] is False),
+                             "passing_variants": sorted(x["hs"]["variant"] for x in same if x["hs"]["cv_ok"]),
+                             "case": c, "rerun": "VERIF_SEED=%d bin/check C10 --tier %s" % (chk.seed, chk.tier)})
             m = monitor(c)
             if m and (c.get("tag"), m[:40]) not in mon_reported:
                 mon_reported.add((c.get("tag"), m[:40]))
@@ -202,6 +257,36 @@ def run(chk):
                 if i in rx_failed:
                     continue  # already reported by the receive-direction monitor
                 leg, site, c = allc[i]
+                hs = c.get("hs")
+                if hs and c["fn"] in HS_MONITORS:
+                    # live handshake: one finding per (monitor, side), the first failing variant is the
+                    # failing input, the other variants are listed for context
+                    sig = {"monitor": HS_MONITORS[c["fn"]], "side": hs.get("side", "")}
+                    k = (SITE_HS, str(sig))
+                    if k in reported:
+                        continue
+                    reported.add(k)
+                    found_input = True
+                    same = [(j, x) for j, (_, _, x) in enumerate(allc)
+                            if x.get("hs") and x["fn"] == c["fn"] and x["hs"].get("side") == hs.get("side")]
+                    mv = model_value(c, "c10val_%s_%d" % (re.sub(r"[^a-z0-9]", "", leg), i))
+                    chk.finding(SITE_HS, sig,
+                                "%s: handshake %s (%s), %s: the wire carries %s, the RFC formula over the messages in "
+                                "wire order [%s] gives %s" % (
+                                    HS_MONITORS[c["fn"]], hs["variant"], hs["suite"], hs["check"] + " / " + hs.get("side", ""),
+                                    c["out"][0], hs["order"], (mv[0] if isinstance(mv, list) and mv else mv)),
+                                {"how": HS_HOW, "variant": hs["variant"], "suite": hs["suite"], "side": hs.get("side"),
+                                 "message_order": hs["order"], "formula": HS_FORMULA[c["fn"]],
+                                 "wire_value": c["out"][0], "model_value": mv,
+                                 "extended_master_secret": hs.get("ems"), "resumed": hs.get("resumed"),
+                                 "certificate_request_on_wire": hs.get("certificate_request"),
+                                 "failing_variants": sorted(x["hs"]["variant"] for j, x in same if j in badset),
+                                 "passing_variants": sorted(x["hs"]["variant"] for j, x in same if j not in badset),
+                                 "case": c,
+                                 "correspondence": "Crypto.C10Run.case_ok (function code %d), model "
+                                                   "Crypto/C10Transcript.v" % c["fn"],
+                                 "rerun": "VERIF_SEED=%d bin/check C10 --tier %s" % (chk.seed, chk.tier)})
+                    continue
                 sig = signature_of(c)
                 k = (c.get("site") or site, str(sig))
                 if k in reported:
@@ -246,6 +331,10 @@ def run(chk):
              "independent Gallina implementation of the RFC formula evaluated by vm_compute; function code 63 is the "
              "negative monitor 'DTLS 1.3 exporter output != P_hash(empty, label||hello randoms)'. The suite and exporter "
              "legs start with the regression corpus of the fixed defects (recorded inputs and RFC values). "
+             "Leg handshake12: per live DTLS 1.2 handshake variant (certificate suites with / without client auth, "
+             "PSK, ECDHE-PSK, EMS on/off, resumption, fragmentation, a lost flight, no HelloVerifyRequest) both "
+             "Finished verify_data values read from the wire with key-log keys, the CertificateVerify signature and "
+             "the master secret are compared with the RFC formulas over the handshake messages in WIRE order. "
              "Non-trivial = at least one non-empty output; distinct by (function, hash, inputs).",
         assumptions=["Go stdlib / x/crypto primitives (AES, GCM, ChaCha20-Poly1305, ECDH, ML-KEM) are outside /repo: "
                      "used as oracles for the primitive only; their inputs (key, nonce, AAD) are compared with the model",
